@@ -12,6 +12,7 @@ CLAIMED = {
  'C05': 'checksum kernels (sum_range, do_checksum, IPv4 pseudo-header, crc32) against RFC 1071 / IEEE 802.3 references for every buffer of each length in the bound; the per-layer serializers that use them are not encoded yet',
  'C06': 'RFC 1982 comparison kernel (seq_compare) for all 2^64 pairs: sign, antisymmetry, shift invariance; plus TCPIP::DataTracker on the real std::map/std::vector for k=2 segments of every shape inside a 3-byte window at initial sequence numbers bracketing the wrap point, stream bytes symbolic; the legacy TCPStream and Flow callbacks are outside',
  'C07': 'only the connection key: StreamIdentifier construction / operator< / operator== / serialize on fully symbolic endpoints (direction independence, equality exactly on the same unordered endpoint pair, strict weak order, IPv4 vs IPv6 keys). The stateful follower (announce once, erase at finish, limits, keep-alive, callbacks) is NOT decided',
+ 'C09': 'memory safety of CCMP decryption (SessionKeys::decrypt_unicast) on protected-frame bodies of every length in the bound, symbolic header bits and PTK, AES stubbed; cipher equivalence, TKIP/WEP and handshake histories are NOT decided',
  'C12': 'PDUOption special members for every source/target representation with symbolic bytes (copy, move, self-assignment, destruction; leak and double-free checks) and six fixed tree programs over IPSecESP/UDP/RawPDU and Packet (stack, clone, copy-assign shorter/longer, move and reuse, release/re-attach/replace, Packet wrap/copy/move/release) with a forest walk after every step',
  'C13': 'finite and complete: every concrete class x every class with a flag, symbolic flag value, against std::is_base_of',
  'C14': 'matches_response of every overriding class: memory safety on every reply length in the bound with a probe inner layer; mirror/perturbation relation for Ethernet, IPv4, TCP, UDP, ICMP, ICMPv6, DNS, ARP',
